@@ -527,6 +527,14 @@ def reset_dbs():
     SSH1_KexDB.thread_exit()
 
 
+class StrictStdout(io.StringIO):
+    """stdout as a user's UTF-8 terminal or pipe has it: text that cannot be encoded (a lone surrogate, as `surrogateescape` decoding of
+    peer bytes produces) raises UnicodeEncodeError in write(), as `print` to a real stream would — a StringIO accepts anything"""
+    def write(self, s):
+        s.encode('utf-8')
+        return super().write(s)
+
+
 def run_main(argv, net, fresh=True, fake_time=True):
     """Run ssh-audit's main() the way the wrapper script ssh-audit.py does; returns (exit_code, stdout)."""
     from ssh_audit import ssh_audit as sa, exitcodes
@@ -537,7 +545,7 @@ def run_main(argv, net, fresh=True, fake_time=True):
         from ssh_audit.ssh1_kexdb import SSH1_KexDB
         SSH2_KexDB.DB_PER_THREAD.clear()
         SSH1_KexDB.DB_PER_THREAD.clear()
-    buf = io.StringIO()
+    buf = StrictStdout()
     old = sys.stdout, sys.argv
     sys.stdout = buf
     sys.argv = ['ssh-audit.py'] + list(argv)
